@@ -115,6 +115,24 @@ def run(ctx):
                                                                  correspondence='try_reflink / per-file call order vs Xcp.tryReflink / Xcp.monitorFile',
                                                                  theorems=['Xcp.C15.monitor_sound']),
                                   f'model/implementation disagree ({what}) on {os.path.basename(dst)}: {toks}', no_input=True)
+        # ---- `never` means never, whatever else is asked for: overwriting existing files with backups (numbered, auto with an
+        # existing backup), --fsync, --ownership, -n: no clone request of any kind for any file the run touches
+        import shutil as _sh
+        for driver in ('parfile', 'parblock'):
+            for extra in (['--backup=numbered'], ['--backup=auto'], ['--fsync', '--ownership'], ['--no-perms', '--no-timestamps']):
+                d = root + '/NV'; _sh.rmtree(d, ignore_errors=True); os.makedirs(d + '/S/sub'); os.makedirs(d + '/D/S/sub')
+                for nm in ('a', 'b', 'sub/c'):
+                    open(f'{d}/S/{nm}', 'wb').write(os.urandom(9000)); open(f'{d}/D/S/{nm}', 'wb').write(b'previous ' + nm.encode())
+                open(d + '/D/S/a.~1~', 'wb').write(b'older a'); open(d + '/D/S/sub/c.~2~', 'wb').write(b'older c')
+                argv = ['-r', '--driver', driver, '--workers', '2', '--reflink=never'] + extra + ['S', 'D']
+                for plan in (None, ['cloneok']):
+                    r = scen.run_xcp(d, argv, plan=plan, timeout=60, trace=True)
+                    reqs = [e for e in r.trace if e['sys'] in ('ficlone', 'ficlonerange')]
+                    ctx.count(f'never_with.{" ".join(extra)}.exit.{r.cls}'); ctx.case(('never-with', driver, tuple(extra), tuple(plan or ())), True)
+                    if reqs or r.cls != '0':
+                        ctx.violation(f'never-with-{driver}-{"-".join(x.strip("-") for x in extra)}.json', dict(argv=argv, plan=plan, exit=r.cls, requests=reqs[:4], stderr=r.stderr[-300:]),
+                                      f'C15: --reflink=never with {" ".join(extra)} over an existing destination: {len(reqs)} clone requests, exit {r.cls} ({driver})')
+                        break
         # ---- sources on ANOTHER file system than the destination (tmpfs under /dev/shm -> ext4): the mode's contract does not
         # depend on where the files live: `always` still asks for a clone of every file and fails when it is refused (EXDEV)
         import shutil
@@ -150,7 +168,7 @@ def run(ctx):
                 shutil.rmtree(ext, ignore_errors=True)
         else:
             ctx.count('cross_device.skipped')
-    ctx.cov['rule'] = ('trees of 1-3 files x driver x reflink {never, auto, always} x clone answered natively (ext4: EOPNOTSUPP), by an injected unsupported errno, '
+    ctx.cov['rule'] = ('reflink=never combined with backups / fsync+ownership / no-perms over an existing destination; trees of 1-3 files x driver x reflink {never, auto, always} x clone answered natively (ext4: EOPNOTSUPP), by an injected unsupported errno, '
                        'by a hard error, or emulated as successful; plus sources on another file system (tmpfs) for every mode; distinct = distinct (mode, answer kind, driver, sizes, plan)')
     ctx.assumptions += ['a successful FICLONE makes the destination identical (emulated here by a whole-file kernel copy)']
 
